@@ -70,7 +70,9 @@ def check_split(ctx, rule):
     for p in sp:
         if p.outcome[0] != 'return':
             continue
-        t = cI(norm(p.outcome[1]))
+        from ..sim import deep_norm as _dn19
+        t = cI(_dn19(p.outcome[1]))       # (locals holding fresh lists are written out: `args[:i] + remainder` is `args[:i] + [..]`)
+        t = t.replace(' + [], ', ', ')      # .. and appending nothing is nothing
         if t == "(args, '', [])":
             shapes.add('none')
             ctx.ok(rule, f_split.loc(), t, 'no marker: everything is ours')
